@@ -778,6 +778,7 @@ func specC11() *propertySpec {
 			{"C11-R5", "no-global-per-case-state: package-level variables are not written after initialisation: nothing outside the T survives from one test case to the next (shared with C15-R4)", ruleC15R4},
 			{"C11-R6", "failure-identity-survives-minimisation: a test case in which nothing failed is never presented as the failing one: the traceback that identifies a failure keeps the frame that distinguishes a deferred flag consult from a plain skip (shared with C05-R3)", ruleC05R3},
 			{"C11-R7", "presented-case-is-an-executed-one: the buffer Check treats as the falsifying test case is a pruned recording that was never executed in that form, so pruning must be replay-neutral: only groups of rejected attempts are discarded, nothing derived from discarded bits steers later draws, a failing attempt is not closed as discarded (shared with C04-R4.4/R4.5/R4.6/R4.7/R4.8/R5, C03-R2)", rulePruneBundle},
+			{"C11-R9", "a-failing-case-leaves-no-lock-behind: user code (a function value) called with a package mutex held is covered by a deferred unlock, so a test case that fails by a panic of a Deferred constructor cannot make the next test case — the reproduction run, minimization, the final replay — block on the generator's mutex instead of getting its own verdict", ruleUserCodeUnderLock},
 			{"C11-R8", "generators-carry-nothing-over: a generator outlives the test case, so a draw that stores through or hands out generator-owned storage lets one test case change what a later one draws (shared with C15-R3)", ruleC15R3},
 		},
 	}
